@@ -78,26 +78,20 @@ Definition fsum_eqb (a b : fsum) : bool :=
 Record ctx := mkX {
   x_name : string;        (* agg | merge | diff | delta | cumulative *)
   x_minmax : bool;        (* min/max are expected to be recorded *)
-  x_sum_tainted : bool    (* the sum went through Diff (which does not compute it) *)
+  x_basis : list Z        (* every value whose sum took part in computing the point's sum (more than the summarised
+                             values after a Diff): decides whether a double sum is checked *)
 }.
 
 Definition big_long (k : kind) (xs : list Z) : bool :=
   match k with KLong => existsb (fun v => 2 ^ 53 <? Z.abs v) xs | KDbl => false end.
-(* classification of a bucket mismatch only (never part of a passing verdict): the counts are what
-   one gets when every int64 value is first rounded to double - the known defect F8b *)
-Definition rounded_counts (s : Z) (bs : list Z) (xs : list Z) : list Z :=
-  map (fun i => Z.of_nat (length (filter (fun v => in_bucket bs i (long_key s v)) xs))) (seq 0 (S (length bs))).
 
 (* the point p must be the exact summary of the values xs under boundaries bs *)
 Definition check_point (k : kind) (s : Z) (bs : list Z) (x : ctx) (xs : list Z) (p : dpoint) : list tok :=
   check (list_eqb (p_bounds p) bs && Nat.eqb (length (p_counts p)) (S (length bs))) (append "shape:" (x_name x)) ++
-  check (list_eqb (p_counts p) (ideal_counts k s bs xs))
-        (append "bucket_spec:" (if big_long k xs && list_eqb (p_counts p) (rounded_counts s bs xs)
-                                then "int64_gt_2p53"%string else x_name x)) ++
+  check (list_eqb (p_counts p) (ideal_counts k s bs xs)) (append "bucket_spec:" (x_name x)) ++
   check ((zsum (p_counts p) =? p_count p) && (p_count p =? Z.of_nat (length xs))) (append "counts_sum_to_count:" (x_name x)) ++
-  (if sum_checkable k s xs
-   then check (fsum_eqb (p_sum p) (SFin (zsum xs)))
-              (if x_sum_tainted x then "diff_inverts_merge:sum_dropped"%string else append "sum_is_sum:" (x_name x))
+  (if sum_checkable k s (x_basis x)
+   then check (fsum_eqb (p_sum p) (SFin (zsum xs))) (append "sum_is_sum:" (x_name x))
    else []) ++
   (if x_minmax x then check (p_rmm p) (append "min_max_spec:not_recorded_" (x_name x))
    else check (negb (p_rmm p)) (append "min_max_spec:recorded_after_" (x_name x))) ++
@@ -129,10 +123,10 @@ Record sym := mkSym {
   y_vals : list Z;       (* the multiset, in order of arrival *)
   y_name : string;       (* agg / merge / diff *)
   y_rmm : bool;          (* min/max still meaningful (no Diff on the way) *)
-  y_tainted : bool;      (* sum went through Diff *)
+  y_basis : list Z;      (* all values whose sums went into this register's sum *)
   y_bad : bool           (* Diff applied to something that is not a sub-multiset: nothing is claimed *)
 }.
-Definition sym0 (rmm : bool) : sym := mkSym [] "agg" rmm false false.
+Definition sym0 (rmm : bool) : sym := mkSym [] "agg" rmm [] false.
 
 Fixpoint remove1 (v : Z) (l : list Z) : option (list Z) :=
   match l with
@@ -146,23 +140,25 @@ Fixpoint msub (big small : list Z) : option (list Z) :=
   | v :: s' => match remove1 v big with Some b' => msub b' s' | None => None end
   end.
 
+Definition is_diff_name (n : string) : bool := String.eqb n "diff".
+
 Definition step_sym (rmm : bool) (ys : list sym) (op : aop) : list sym * list sym :=
   let get r := nth r ys (sym0 rmm) in
   match op with
   | ONew r => (set_nth r (sym0 rmm) ys, [])
   | OAgg r v => let y := get r in
-                (set_nth r (mkSym (y_vals y ++ [v]) (y_name y) (y_rmm y) (y_tainted y) (y_bad y)) ys, [])
+                (set_nth r (mkSym (y_vals y ++ [v]) (y_name y) (y_rmm y) (y_basis y ++ [v]) (y_bad y)) ys, [])
   | OAggX r => (ys, [])
   | OMerge r a b =>
       let ya := get a in let yb := get b in
       (set_nth r (mkSym (y_vals ya ++ y_vals yb)
-                        (if y_tainted ya || y_tainted yb then "diff" else "merge")
-                        (y_rmm ya && y_rmm yb) (y_tainted ya || y_tainted yb) (y_bad ya || y_bad yb)) ys, [])
+                        (if is_diff_name (y_name ya) || is_diff_name (y_name yb) then "diff" else "merge")
+                        (y_rmm ya && y_rmm yb) (y_basis ya ++ y_basis yb) (y_bad ya || y_bad yb)) ys, [])
   | ODiff r a b =>
       let ya := get a in let yb := get b in
       (set_nth r (match msub (y_vals yb) (y_vals ya) with
-                  | Some d => mkSym d "diff" false true (y_bad ya || y_bad yb)
-                  | None => mkSym [] "diff" false true true
+                  | Some d => mkSym d "diff" false (y_basis ya ++ y_basis yb) (y_bad ya || y_bad yb)
+                  | None => mkSym [] "diff" false [] true
                   end) ys, [])
   | OPrint r => (ys, [get r])
   end.
@@ -174,7 +170,7 @@ Fixpoint run_sym (rmm : bool) (ys : list sym) (l : list aop) : list sym :=
 
 Definition check_sym (k : kind) (s : Z) (bs : list Z) (y : sym) (p : dpoint) : list tok :=
   if y_bad y then []
-  else check_point k s bs (mkX (y_name y) (y_rmm y) (y_tainted y)) (y_vals y) p.
+  else check_point k s bs (mkX (y_name y) (y_rmm y) (y_basis y)) (y_vals y) p.
 
 Fixpoint check_all {A B} (f : A -> B -> list tok) (a : list A) (b : list B) : list tok :=
   match a, b with
@@ -203,7 +199,7 @@ Definition check_collect (k : kind) (s : Z) (c : cfg) (e : string * list Z) (o :
   match o, xs with
   | None, [] => []
   | None, _ :: _ => fail (append "lossless:missing_point_" name)
-  | Some p, _ => check_point k s (c_bounds c) (mkX name (c_rmm c) false) xs p
+  | Some p, _ => check_point k s (c_bounds c) (mkX name (c_rmm c) xs) xs p
   end.
 
 Definition spec_series (k : kind) (s : Z) (c : cfg) (temps : list temp) (l : list sop) (obs : list (option dpoint)) : list tok :=
